@@ -44,10 +44,11 @@ def cf1d(c, *, bounds=False, as_coords=True, lat_name='lat', lon_name='lon', ydi
     if bounds:
         add_var(ds, 'lat_bnds', (ydim, 'bnds'), sym_array(c, 'latb', (ny, 2), coord_kind), coord=(bounds == 'coords'))
         add_var(ds, 'lon_bnds', (xdim, 'bnds'), sym_array(c, 'lonb', (nx, 2), coord_kind), coord=(bounds == 'coords'))
-    for name, dims in extra:
+    for ex in extra:
+        name, dims, vkind = (tuple(ex) + ('V',))[:3]
         sizes = dict(ds._sizes())
         shape = tuple(sizes[d] if d in sizes else sym_size(c, f'n_{d}', 0) for d in dims)
-        add_var(ds, name, dims, sym_array(c, 'data_' + str(name), shape, 'V'))
+        add_var(ds, name, dims, sym_array(c, 'data_' + str(name), shape, vkind))
     ds.info = {'convention': 'CFGrid1D', 'ny': ny, 'nx': nx, 'ydim': ydim, 'xdim': xdim,
                'lat': lat_name, 'lon': lon_name, 'shape': {'face': (ny, nx)}, 'dims': {'face': (ydim, xdim)}}
     c.assumptions_used.add(ASSUMPTIONS['cf1d'])
@@ -75,10 +76,11 @@ def cf2d(c, *, bounds=False, as_coords=True, ydim='j', xdim='i', lat_name='lat',
     if bounds:
         add_var(ds, 'lat_bnds', (ydim, xdim, 'four'), sym_array(c, 'latb', (ny, nx, 4), coord_kind), coord=(bounds == 'coords'))
         add_var(ds, 'lon_bnds', (ydim, xdim, 'four'), sym_array(c, 'lonb', (ny, nx, 4), coord_kind), coord=(bounds == 'coords'))
-    for name, dims in extra:
+    for ex in extra:
+        name, dims, vkind = (tuple(ex) + ('V',))[:3]
         sizes = dict(ds._sizes())
         shape = tuple(sizes[d] if d in sizes else sym_size(c, f'n_{d}', 0) for d in dims)
-        add_var(ds, name, dims, sym_array(c, 'data_' + str(name), shape, 'V'))
+        add_var(ds, name, dims, sym_array(c, 'data_' + str(name), shape, vkind))
     ds.info = {'convention': 'CFGrid2D', 'ny': ny, 'nx': nx, 'ydim': ydim, 'xdim': xdim,
                'lat': lat_name, 'lon': lon_name, 'shape': {'face': (ny, nx)}, 'dims': {'face': (ydim, xdim)}}
     c.assumptions_used.add(ASSUMPTIONS['cf2d'])
@@ -112,10 +114,11 @@ def shoc_standard(c, *, as_coords=True, coord_kind='floatnan', extra=()):
         dims[kind] = (jd, idim)
         add_var(ds, yn, (jd, idim), sym_array(c, yn, shp, coord_kind), {'units': 'degrees_north'}, coord=as_coords)
         add_var(ds, xn, (jd, idim), sym_array(c, xn, shp, coord_kind), {'units': 'degrees_east'}, coord=as_coords)
-    for name, vdims in extra:
+    for ex in extra:
+        name, vdims, vkind = (tuple(ex) + ('V',))[:3]
         sizes = dict(ds._sizes())
         shape = tuple(sizes[d] if d in sizes else sym_size(c, f'n_{d}', 0) for d in vdims)
-        add_var(ds, name, vdims, sym_array(c, 'data_' + str(name), shape, 'V'))
+        add_var(ds, name, vdims, sym_array(c, 'data_' + str(name), shape, vkind))
     ds.info = {'convention': 'ShocStandard', 'ny': ny, 'nx': nx, 'shape': shapes, 'dims': dims}
     c.assumptions_used.add(ASSUMPTIONS['shoc_standard'])
     return ds
@@ -179,10 +182,11 @@ def ugrid(c, *, edges='none', transposed=False, start_index=0, fill='none', coor
     if face_coords:
         add_var(ds, 'face_x', ('nface',), sym_array(c, 'face_x', (nface,), 'floatnan'), coord=is_coord)
         add_var(ds, 'face_y', ('nface',), sym_array(c, 'face_y', (nface,), 'floatnan'), coord=is_coord)
-    for name, vdims in extra:
+    for ex in extra:
+        name, vdims, vkind = (tuple(ex) + ('V',))[:3]
         sizes = dict(ds._sizes())
         shape = tuple(sizes[d] if d in sizes else sym_size(c, f'n_{d}', 0) for d in vdims)
-        add_var(ds, name, vdims, sym_array(c, 'data_' + str(name), shape, 'V'))
+        add_var(ds, name, vdims, sym_array(c, 'data_' + str(name), shape, vkind))
     ds._vars['mesh'].attrs = dict(mesh_attrs)
     shapes = {'face': (nface,), 'node': (nnode,)}
     dims = {'face': ('nface',), 'node': ('nnode',)}
